@@ -32,7 +32,10 @@ Definition scale_gen (r : Q) (g : gen) : gen :=
 Fixpoint index_of (x : str) (l : list str) : option nat :=
   match l with [] => None | y :: r => if str_eqb x y then Some 0 else option_map S (index_of x r) end.
 Definition fmt2d (n : nat) : str := rjust 2 (show_nat n).
-Definition qsum (l : list Q) : Q := fold_left Qplus l (0 # 1)%Q.
+(** [sum([...])]: the running sum is kept in lowest terms (same rational; the doubles of the harness have
+    53-bit denominators, and an unreduced sum of n of them would carry a 53n-bit denominator) *)
+Definition qadd (a b : Q) : Q := Qred (a + b).
+Definition qsum (l : list Q) : Q := fold_left qadd l (0 # 1)%Q.
 
 Fixpoint filterM {A} (p : A -> res bool) (l : list A) : res (list A) :=
   match l with
